@@ -264,8 +264,18 @@ class CreationOp:
         if kind in ("ones", "zeros", "full"):
             nd = rng.choice([1, 2, 2, 3])
             shape = [rng.randint(1, 7) for _ in range(nd)]
-            return {"kind": kind, "shape": shape, "chunks": jsonable_chunks(rand_chunks(rng, tuple(shape))), "dtype": dtype,
-                    "fill": rng.randint(-3, 9)}
+            chunks = jsonable_chunks(rand_chunks(rng, tuple(shape)))
+            if rng.random() < ctx.p_ragged_creation:
+                # many small blocks with ONE odd block at a seeded position ((2, 1, 2, 2), (1, 1, 2, 1, 1) ...)
+                shape, chunks = [], []
+                for _ in range(nd):
+                    nb = rng.randint(4, 6)
+                    base = rng.choice([1, 2])
+                    row = [base] * nb
+                    row[rng.randrange(nb)] = 3 - base
+                    chunks.append(row)
+                    shape.append(sum(row))
+            return {"kind": kind, "shape": shape, "chunks": chunks, "dtype": dtype, "fill": rng.randint(-3, 9)}
         if kind == "arange":
             n = rng.randint(1, 24)
             return {"kind": kind, "n": n, "chunks": rng.randint(1, n), "dtype": dtype}
@@ -1411,6 +1421,7 @@ class Ctx:
         self.p_arg_reduction = 0.0
         self.p_closure_fn = 0.25
         self.p_random_auto = 0.0
+        self.p_ragged_creation = 0.1
         self.p_simlock = 0.0
         self.p_lazy_source = 0.0
         self.p_asarray_false = 0.0
